@@ -378,6 +378,75 @@ def one_stack(R, B, vm, items, W):
                 R.violation(f'roundtrip-value-{km}{"-" + field if field else ""}', f'{src_name} cell: {d}', W)
                 break
             R.counters['oracle_evaluations'] += 1
+    parsed_values_are_callers(R, B, vm, items, c1, mech, W)
+
+
+def use_parsed(v, B, vm, depth=0):
+    """what a caller does with values the parser handed out: grow a tuple, store into a builder, read from a slice (all in place)"""
+    n = 0
+    if isinstance(v, vm.VmTuple):
+        for x in list(v.list)[:4]:
+            if depth < 3:
+                n += use_parsed(x, B, vm, depth + 1)
+        v.append(424242)
+        n += 1
+    elif isinstance(v, B.Builder):
+        if v.available_bits >= 9:
+            v.store_uint(0x155, 9)
+            n += 1
+        if v.available_refs:
+            v.store_ref(B.Builder().store_uint(7, 3).end_cell())
+            n += 1
+    elif isinstance(v, B.Slice):
+        if v.remaining_bits:
+            v.load_bit()
+            n += 1
+        if v.remaining_refs:
+            v.load_ref()
+            n += 1
+    elif isinstance(v, list):
+        for x in v[:4]:
+            n += use_parsed(x, B, vm, depth + 1)
+        v.append(None)
+        n += 1
+    return n
+
+
+def parsed_values_are_callers(R, B, vm, items, cell, mech, W):
+    """parse, use the parsed values in place, parse the same cell again (and an unrelated stack with an empty tuple): same values as the first
+    time, and the cell itself still serialises to the same bytes"""
+    st, boc0 = mon.call(cell.to_boc)
+    st, first = mon.call(vm.VmStack.deserialize, cell.begin_parse())
+    if st == 'exc':
+        return
+    st, n = mon.call(use_parsed, first, B, vm)
+    if st == 'exc':
+        R.count('use_parsed_raised')
+        n = 0
+    R.count('parsed_values_used_in_place', n)
+    st, again = mon.call(vm.VmStack.deserialize, cell.begin_parse())
+    R.counters['oracle_evaluations'] += 1
+    if st == 'exc':
+        R.violation(f'reparse-raises-after-using-parsed-values-{mech}', f'the same cell no longer parses after the first parse result was used in place: {again!r}', W)
+        return
+    d = None if isinstance(again, list) and len(again) == len(items) else f'depth {len(items)} came back as {mon.srepr(again, 60)}'
+    if d is None:
+        for i, (a, b) in enumerate(zip(items, again)):
+            d = same(a, b, B, vm, f'$[{i}]')
+            if d:
+                break
+    R.check(d is None, f'reparse-differs-after-using-parsed-values-{mech}', f'second parse of the same cell differs after the first parse result was used in place: {d}', W)
+    st, boc1 = mon.call(cell.to_boc)
+    R.check(boc1 == boc0, f'cell-changed-by-using-parsed-values-{mech}', 'the serialised stack cell changed after values parsed from it were used in place', W)
+    # an unrelated stack: empty tuple, empty builder, null
+    probe_items = [('tuple', []), None, ('tuple', [('tuple', [])])]
+    st, pc = mon.call(lambda: vm.VmStack.deserialize(bridge.to_lib(rc.RC(*enc_stack(probe_items))).begin_parse()))
+    if st == 'ok':
+        d = None if len(pc) == 3 else 'depth'
+        for i, (a, b) in enumerate(zip(probe_items, pc)):
+            d = d or same(a, b, B, vm, f'$[{i}]')
+        R.check(d is None, 'unrelated-stack-polluted-by-earlier-parse', f'a stack of empty tuples parses to {mon.srepr(pc, 80)} after parsed values of another stack were used: {d}', W)
+        mon.call(use_parsed, pc, B, vm)
 
 
 def mutation_history(R, B, vm, rng):
